@@ -55,10 +55,14 @@ def worth(o):
 
 
 class Model:
-    def __init__(self, tier):
+    def __init__(self, tier, interest=False):
         self.tier = tier
+        self.interest = interest
 
     def roots(self):
+        if self.interest:
+            # debts >= 10 make int(debt * 0.1) non-zero: the state space is then unbounded, explored to a depth
+            return [[1, 0, 0, 12], [0, 2, 2, 20]] if self.tier == "quick" else [[1, 0, 0, 12], [0, 2, 2, 20], [3, 0, 2, 11]]
         if self.tier == "quick":
             cfgs = [(b, g, n, d) for b in (0, 3) for g in (0, 2) for n in (0, 2) for d in (0, 3)] + [(1, 0, 2, 3)]
         else:
@@ -240,12 +244,15 @@ def run(ctx):
     model = Model(ctx.tier)
     depth = 40
     res = explore.explore(model, ctx, depth)
+    idepth = 4 if ctx.tier == "quick" else 6
+    res2 = explore.explore(Model(ctx.tier, interest=True), ctx, idepth, label="A-interest")
+    ctx.coverage["interest_configs"] = {k: res2[k] for k in ("states", "transitions", "depth_completed", "fixpoint", "roots")}
     ctx.coverage.update(
-        states=res["states"],
-        transitions=res["transitions"],
-        traces_validated_against_impl=res["transitions"],
-        evaluations=res["transitions"],
-        distinct_nontrivial=res["states"],
+        states=res["states"] + res2["states"],
+        transitions=res["transitions"] + res2["transitions"],
+        traces_validated_against_impl=res["transitions"] + res2["transitions"],
+        evaluations=res["transitions"] + res2["transitions"],
+        distinct_nontrivial=res["states"] + res2["states"],
         rule="BFS over (main store, peer store) canonical states (atp,gtp,nadh,debt,metabolic state); every one of "
         "~110 operations applied to the real ATP_Store in every reachable state; a case is non-trivial/distinct "
         "= a distinct canonical state",
@@ -266,4 +273,4 @@ def run(ctx):
 
 
 def replay(ctx, case):
-    return explore.replay_case(Model(ctx.tier), case)
+    return explore.replay_case(Model(ctx.tier, interest=case["root"][3] > 5), case)
